@@ -514,7 +514,13 @@ def check(pid, tier, runs=None, workers=None, quiet=False):
     wall = time.time() - t0
     write_evidence(prop, tier, seed, nruns, stats, cover, samples, wall, workers,
                    hash_seeds if replica_runs else [], replicas, ev_mismatch, aborted,
-                   viol_counts, reported, known_lines)
+                   viol_counts, reported, known_lines,
+                   liveness={'wall_clock_suspicion_s': stall_s, 'step_budget_line_events': step_budget,
+                             'runs_suspected': nstalled + sum(len(range(st, sp, sk)) for _, _, st, sp, sk in jobs.skipped),
+                             'runs_re_executed_under_step_budget': nstalled, 'runs_not_executed': skipped,
+                             'rule': 'a run that exceeds the wall-clock suspicion time is re-executed in a fresh '
+                                     'interpreter under a budget of penman line events of the main thread; only exceeding '
+                                     'that logical budget is reported (termination:no-return-within-step-budget)'})
     print(f'RESULT property={pid} tier={tier} runs={nruns} replicas={replicas} '
           f'distinct={len(cover)} violations={len(reported)} known={len(set(known_lines))} '
           f'wall={wall:.1f}s runs_per_hour={int(nruns / max(wall, 1e-6) * 3600)}')
@@ -876,7 +882,7 @@ def events_main(a):
 # evidence
 
 def write_evidence(prop, tier, seed, nruns, stats, cover, samples, wall, workers,
-                   hash_seeds, replicas, ev_mismatch, aborted, viol_counts, reported, known_lines):
+                   hash_seeds, replicas, ev_mismatch, aborted, viol_counts, reported, known_lines, liveness=None):
     faults = {k[6:]: v for k, v in sorted(stats.items()) if k.startswith('fault.')}
     probes = {k[6:]: v for k, v in sorted(stats.items()) if k.startswith('probe.')}
     steps = {k[5:]: v for k, v in sorted(stats.items()) if k.startswith('step.')}
@@ -909,6 +915,7 @@ def write_evidence(prop, tier, seed, nruns, stats, cover, samples, wall, workers
             'hash_seed_result_divergences': len(ev_mismatch),
             'worker_counts': [workers],
             'aborted_runs': dict(aborted),
+            'bounded_liveness': liveness or {},
             'real_vs_stub': prop.REAL_VS_STUB,
             'violation_counts': dict(viol_counts),
             'known_findings': sorted(set(known_lines)),
